@@ -344,6 +344,12 @@ def r09_7(run):
     at = run.idx.find_method(run.idx.cls('_CircuitAttacher', 'circuit'), 'attach_stream')
     k = dropped_deferreds(run, 'R09.7', [ep, ga, at], 'the via-circuit connection')
     run.floor('R09.7', 'suspension points in the via-circuit coroutines', k, 5)
+    required_await(run, 'R09.7', ep, lambda v: isinstance(v, ast.Call) and callee_attr(v) == 'when_built',
+                   lambda a: isinstance(a, ast.Call) and callee_attr(a) == 'connect' and (dotted(a.func) or '').startswith('self._target_endpoint'),
+                   'the circuit being BUILT', 'the underlying connection is started', 'await-built')
+    required_await(run, 'R09.7', ep, lambda v: isinstance(v, ast.Call) and dotted(v.func) == '_get_circuit_attacher',
+                   lambda a: isinstance(a, ast.Call) and callee_attr(a) == 'connect' and (dotted(a.func) or '').startswith('self._target_endpoint'),
+                   'the attacher being installed', 'the underlying connection is started', 'await-attacher')
 
 
 def r09_9(run):
@@ -368,6 +374,7 @@ RULES = [
 from ..selftest import M  # noqa: E402
 FT, FC = 'txtorcon/torstate.py', 'txtorcon/circuit.py'
 MUTANTS = [
+    M('when-built-removed', FC, "        yield self._circuit.when_built()\n        connect_d", "        connect_d", ['R09.7']),
     M('none-test-by-truthiness', FT, "            if circ is None:\n", "            if not circ:\n", ['R09.4']),
     M('when-built-not-awaited', FC, "        yield self._circuit.when_built()\n        connect_d", "        self._circuit.when_built()\n        connect_d", ['R09.7']),
     M('marker-like-none', FT, "            if circ is TorState.DO_NOT_ATTACH:\n                # neither attach it, nor tell Tor to attach it\n                return None\n\n            if circ is None:", "            if circ is None or circ is TorState.DO_NOT_ATTACH:", ['R09.1']),
